@@ -2096,6 +2096,7 @@ def lane_uses_position_vector(prog, inner, lane):
 
 
 def rule_c18_quantiles(ctx, prog, rule="R13"):
+    prog = prog.inlined_view()      # private helpers that do not exist on the reference tree are read in place
     qa = prog.method("QuantileExt", "quantile_axis_mut")
     # .map(|a| a.index_axis_move(axis, 0))
     ok = False
@@ -2525,7 +2526,71 @@ def fn_term(prog, body, names, depth=0, pick_field=None, kernel_cls=None):
     return K.term(r)
 
 
+def origin_calls(body, e, names, depth=0, seen=None):
+    """names of the calls (among `names`) a value can originate from, following moves, Option/tuple construction and projection,
+    clones / look-ups, and every definition of a value chosen on several paths"""
+    seen = seen if seen is not None else set()
+    if depth > 40:
+        return set()
+    try:
+        e = ds(e)
+    except Exception:
+        pass
+    if not isinstance(e, tuple) or not e:
+        return set()
+    k = e[0]
+    if k == "phi":
+        key = (body.key, e[1], tuple(map(str, e[3])))
+        if key in seen:
+            return set()
+        seen.add(key)
+        out = set()
+        for d_ in e[3]:
+            if d_[0] in ("entry", "partial"):
+                continue
+            try:
+                out |= origin_calls(body, body.def_expr(e[1], d_), names, depth + 1, seen)
+            except Exception:
+                pass
+        return out
+    if k == "field" and len(e) >= 3:
+        x = e[1]
+        try:
+            x = ds(x)
+        except Exception:
+            pass
+        if isinstance(x, tuple) and x and x[0] == "agg" and str(e[2]).isdigit() and int(e[2]) < len(x[3]) and x[1] in ("tuple",):
+            return origin_calls(body, x[3][int(e[2])], names, depth + 1, seen)
+        if isinstance(x, tuple) and x and x[0] == "phi":
+            out = set()
+            for d_ in x[3]:
+                if d_[0] in ("entry", "partial"):
+                    continue
+                try:
+                    out |= origin_calls(body, ("field", body.def_expr(x[1], d_), e[2]), names, depth + 1, seen)
+                except Exception:
+                    pass
+            return out
+        return origin_calls(body, x, names, depth + 1, seen)
+    if k in ("downcast", "deref", "ref", "cast", "unop"):
+        return origin_calls(body, e[2] if k in ("cast", "unop") else e[1], names, depth + 1, seen)
+    if k == "agg":
+        out = set()
+        for x in e[3]:
+            out |= origin_calls(body, x, names, depth + 1, seen)
+        return out
+    if k == "call":
+        if e[1] in names:
+            return {e[1]}
+        out = set()
+        for x in e[3]:
+            out |= origin_calls(body, x, names, depth + 1, seen)
+        return out
+    return set()
+
+
 def rule_quantiles_fill_value(ctx, prog):
+    prog = prog.inlined_view()      # private helpers that do not exist on the reference tree are read in place
     inner = prog.find("QuantileExt<A, S, D>>::quantiles_axis_mut::quantiles_axis_mut")
     # the fill value `data.first().unwrap()` is evaluated only once the result (hence the data) is known to be non-empty: a
     # zero-length *other* axis must yield the empty result (C17: Ok, never a panic), not reach this unwrap
@@ -2552,6 +2617,7 @@ def rule_quantiles_fill_value(ctx, prog):
 
 
 def rule_c01_interpolation(ctx, prog, rule="R19"):
+    prog = prog.inlined_view()      # private helpers that do not exist on the reference tree are read in place
     rec = Recorder(ctx, rule)
     q, n = ("sym", "q"), ("sym", "len")
     IDX = ("mul", q, ("sub", n, ("num", 1)))
@@ -2687,7 +2753,14 @@ def rule_c01_interpolation(ctx, prog, rule="R19"):
                         while la[0].is_closure and la[0] is not inner and isinstance(ds(la[1]), tuple) and ds(la[1])[0] == "upvar":
                             la = up(prog, la[0], la[1])
                         lk[callee_name(ct)] = (qa == qarg, ds(up(prog, la[0], la[1])[1]) == le_ if la[0].is_closure else ds(la[1]) == le_)
+            # the strategy's first value argument comes from the look-up at lower_index, the second from the one at higher_index
+            o0 = origin_calls(c, a[0], ("lower_index", "higher_index"))
+            o1 = origin_calls(c, a[1], ("lower_index", "higher_index"))
+            roles_ok = o0 == {"lower_index"} and o1 == {"higher_index"}
             ok = q_is_elem and len_ok and st_ok and lk.get("lower_index") == (True, True) and lk.get("higher_index") == (True, True)
+            if ok and not roles_ok and (o0 or o1):
+                ok = False
+                lk = {"interpolate receives": "lower ← %s, higher ← %s" % (sorted(o0) or "?", sorted(o1) or "?")}
             if not ok and not lk and q_is_elem and len_ok and st_ok:
                 pv = lane_uses_position_vector(prog, inner, c)
                 if pv is not None:
